@@ -107,13 +107,32 @@ def judgeClosure (i : Json) (g : Graph) (kind : String) (nOps : Nat) (obs : List
   match launched.find? (fun k => !c.contains k) with
   | some k => some s!"launched instance {k.1}/{k.2} is not in the spawn-on-demand closure of the graph"
   | none =>
-    if kind != "complete" then none else
     let last := obs.getLast?.getD Json.null
+    let stop := jStrField? last "stop"
+    let hasSui := g.tasks.any fun t => t.insts.any fun pd => !pd.2.sui.isEmpty
+    -- every graph-implied parentless instance must have run before an automatic shutdown (runs of either kind).
+    -- This is decided from the valid points of the task (its recurrences) and `TaskDef.is_parentless`,
+    -- independently of `next_point_parentless` (which the model takes from the implementation).  The recorded
+    -- finding `parentless-skipped` covers only a task that is parented at an earlier valid point (then the first /
+    -- next point of a sequence is parented and the search stops); a missing instance of a task that is parentless
+    -- at every earlier point is a violation.
+    let plCheck : Option String :=
+      if stop != some "AUTOMATIC" || hasSui then none else
+      let pl := g.tasks.flatMap fun t => (t.insts.filter fun pd => jsonParentless i t.name pd.1).map fun pd => (pd.1, t.name)
+      let missing := pl.filter fun k => inClosureOK g done k && !launched.contains k
+      let parentedEarlier (k : Int × String) : Bool := match g.task? k.2 with
+        | some t => t.insts.any fun pd => decide (g.start ≤ pd.1) && decide (pd.1 < k.1) && !jsonParentless i k.2 pd.1
+        | none => false
+      match missing.find? (fun k => !parentedEarlier k) with
+      | some k => some s!"graph-implied parentless instance {k.1}/{k.2} (task parentless at every earlier point) was never submitted before the automatic shutdown"
+      | none => match missing with
+        | k :: _ => some s!"parentless-skipped: parentless instance {k.1}/{k.2} within the bounds was never submitted (automatic shutdown without it)"
+        | [] => none
+    if kind != "complete" then plCheck else
     -- the premise "every finished task completes its required outputs", read off the run itself: a finished task
     -- that is retained in the pool is an incomplete one (the generator's kind `complete` is only a bias)
     let finished (st : String) : Bool := st == "failed" || st == "succeeded" || st == "submit-failed" || st == "expired"
     if (poolObs last).any (fun x => finished x.st) then none else
-    let stop := jStrField? last "stop"
     if stop.isNone then
       if nOps ≥ 260 then none
       else if (jBoolField? last "stalled").getD false then
@@ -124,16 +143,10 @@ def judgeClosure (i : Json) (g : Graph) (kind : String) (nOps : Nat) (obs : List
       else some "every finished task is complete but the scheduler neither shut down by itself nor stalled"
     else if stop != some "AUTOMATIC" then none
     else
-      let hasSui := g.tasks.any fun t => t.insts.any fun pd => !pd.2.sui.isEmpty
       if hasSui then none else
       match c.find? (fun k => !launched.contains k) with
       | some k => some s!"instance {k.1}/{k.2} is in the spawn-on-demand closure but was never submitted before the automatic shutdown"
-      | none =>
-        -- parentless instances of the graph that the mechanism never gave a proxy
-        let pl := g.tasks.flatMap fun t => (t.insts.filter fun pd => jsonParentless i t.name pd.1).map fun pd => (pd.1, t.name)
-        match pl.find? (fun k => inClosureOK g done k && !launched.contains k) with
-        | some k => some s!"parentless-skipped: parentless instance {k.1}/{k.2} within the bounds was never submitted (automatic shutdown without it)"
-        | none => none
+      | none => plCheck
 
 def judge (i : Json) (c : Case) (kind : String) (o : Json) : Option String :=
   let g := c.graph
